@@ -28,40 +28,70 @@ Scenarios ==
   \cup {[peer |-> "rogue", impl |-> "snow", trole |-> r, pv |-> pv, mitm |-> Pass, dialed |-> "none", dialedForm |-> "none", chunk |-> c] :
       r \in {"dialer", "listener"}, pv \in RoguePayloads, c \in Chunks}
 
-VARIABLES sc, pc, d, l, wire, m1
-vars == <<sc, pc, d, l, wire, m1>>
+\* ---- histories: short sequences of handshakes against the same process (victim) state
+HStep(r, imp, m) == [peer |-> "honest", impl |-> imp, trole |-> r, pv |-> "none", mitm |-> m, dialed |-> "none", dialedForm |-> "none", chunk |-> "whole"]
+RStep(r, pv) == [peer |-> "rogue", impl |-> "snow", trole |-> r, pv |-> pv, mitm |-> Pass, dialed |-> "none", dialedForm |-> "none", chunk |-> "whole"]
+\* the message that carries H's payload to the victim
+PayloadMsg(r) == IF r = "dialer" THEN 2 ELSE 3
+Sequences(r, imp) ==
+  LET H == HStep(r, imp, Pass)
+      Hbad == HStep(r, imp, [msg |-> PayloadMsg(r), move |-> "corrupt", field |-> "tag"])
+      replay == RStep(r, "replayH")  bad == RStep(r, "replayHBadSig") IN
+  { <<H, replay>>, <<H, H>>, <<H, bad>>, <<replay, H, replay>>, <<H, replay, H>>,
+    <<H, RStep(r, "asR"), replay>>, <<Hbad, replay>>, <<H, Hbad, replay>> }
+NegotiateSequences(r) ==
+  LET H == HStep(r, "snowfixed", Pass)  replay == RStep(r, "replayH") IN
+  { <<H, replay>>, <<H, H>>, <<replay, H, replay>>, <<H, RStep(r, "replayHBadSig"), H>> }
+Histories ==
+  {[route |-> "mem", steps |-> <<x>>] : x \in Scenarios}
+  \cup {[route |-> "mem", steps |-> q] : q \in UNION {Sequences(r, imp) : r \in {"dialer", "listener"}, imp \in {"snowfixed", "libp2pfixed"}}}
+  \cup {[route |-> "negotiate", steps |-> q] : q \in UNION {NegotiateSequences(r) : r \in {"dialer", "listener"}}}
 
-Init == /\ sc \in Scenarios
+\* memo: what the process carries from one handshake to the next (the code: nothing, see NoiseHS!MemoAfter)
+VARIABLES hs, k, pc, d, l, wire, m1, memo, res
+vars == <<hs, k, pc, d, l, wire, m1, memo, res>>
+sc == hs.steps[k]
+
+Init == /\ hs \in Histories
+        /\ k = 1 /\ memo = {} /\ res = <<>>
         /\ pc = 0 /\ d = Ep0 /\ l = Ep0 /\ wire = NoMsg /\ m1 = NoMsg
 
 Honest(side) == Kind(sc, side) = "honest"
 \* a rogue endpoint completes Noise but verifies nothing
-Finish(side, ep) == IF ep.st # "run" THEN ep ELSE IF Honest(side) THEN Verify(sc, side, ep) ELSE [ep EXCEPT !.st = "ok"]
+Finish(side, ep) == IF ep.st # "run" THEN ep ELSE IF Honest(side) THEN Verify(sc, side, ep, memo) ELSE [ep EXCEPT !.st = "ok"]
+Remember(side, ep) == IF Honest(side) THEN MemoAfter(memo, ep) ELSE memo
 
 Step ==
   \/ /\ pc = 0
      /\ LET w == Write1(sc, d) IN d' = w.ep /\ wire' = Mitm(sc, 1, w.m, w.m) /\ m1' = w.m
-     /\ UNCHANGED l
+     /\ UNCHANGED <<l, memo, res>>
   \/ /\ pc = 1
      /\ l' = IF wire.len = "none" THEN Fail(l) ELSE Read1(sc, l, wire)
-     /\ UNCHANGED <<d, wire, m1>>
+     /\ UNCHANGED <<d, wire, m1, memo, res>>
   \/ /\ pc = 2
      /\ IF l.st = "run" THEN LET w == Write2(sc, l) IN l' = w.ep /\ wire' = Mitm(sc, 2, w.m, m1)
                         ELSE l' = l /\ wire' = NoMsg
-     /\ UNCHANGED <<d, m1>>
+     /\ UNCHANGED <<d, m1, memo, res>>
   \/ /\ pc = 3
      /\ d' = IF wire.len = "none" THEN Fail(d) ELSE Read2(sc, d, wire)
-     /\ UNCHANGED <<l, wire, m1>>
+     /\ UNCHANGED <<l, wire, m1, memo, res>>
   \/ /\ pc = 4    \* the dialer sends its payload, then verifies the listener's
      /\ IF d.st = "run" THEN LET w == Write3(sc, d) IN d' = Finish("d", w.ep) /\ wire' = Mitm(sc, 3, w.m, m1)
                         ELSE d' = d /\ wire' = NoMsg
-     /\ UNCHANGED <<l, m1>>
+     /\ memo' = Remember("d", d')
+     /\ UNCHANGED <<l, m1, res>>
   \/ /\ pc = 5
      /\ l' = IF l.st # "run" THEN l
              ELSE IF wire.len = "none" THEN Fail(l) ELSE Finish("l", Read3(sc, l, wire))
+     /\ memo' = Remember("l", l')
+     /\ res' = Append(res, [dialer |-> Outcome(d), listener |-> Outcome(l')])
      /\ UNCHANGED <<d, wire, m1>>
 
-Next == pc < 6 /\ Step /\ pc' = pc + 1 /\ UNCHANGED sc
+Next == \/ pc < 6 /\ Step /\ pc' = pc + 1 /\ UNCHANGED <<hs, k>>
+        \* next handshake of the history: fresh endpoints, same process state
+        \/ /\ pc = 6 /\ k < Len(hs.steps)
+           /\ k' = k + 1 /\ pc' = 0 /\ d' = Ep0 /\ l' = Ep0 /\ wire' = NoMsg /\ m1' = NoMsg
+           /\ UNCHANGED <<hs, memo, res>>
 Spec == Init /\ [][Next]_vars
 
 Done == pc = 6
@@ -83,5 +113,6 @@ Auth == Done => \A side \in {"d", "l"} : (Honest(side) /\ Ep(side).st = "ok") =>
 NoHang == Done => \A side \in {"d", "l"} : Ep(side).st # "run"
 Agreement == Done /\ d.st = "ok" /\ l.st = "ok" => d.ss = l.ss
 
-Emit == (pc' = 6) => PrintT(<<"B", ToJson([sc |-> sc, exp |-> [dialer |-> Outcome(d'), listener |-> Outcome(l')]])>>)
+\* one behaviour per history, emitted when its last handshake ends
+Emit == (pc' = 6 /\ k = Len(hs.steps)) => PrintT(<<"B", ToJson([route |-> hs.route, steps |-> hs.steps, exp |-> res'])>>)
 =============================================================================
